@@ -1436,16 +1436,27 @@ def layout_contracts(lay_reg=None):
             return r.t == LZ2(c.args["properties"].t, data)
         return f
 
-    for kind, cid, ok in (("copy", b"\x00", True), ("lzma", b"\x03\x01\x01", True), ("lzma2", b"\x21", True),
-                          ("aes", b"\x06\xf1\x07\x01", False), ("deflate", b"\x04\x01\x08", False)):
-        out.append(FnContract(
-            target=f"{RD}._apply_decoder",
-            params=[("self", p_obj("SevenZipReader", {})), ("coder_id", p_const(cid)), ("properties", p_ext("CoderProps")), ("data", p_ext("Blob")),
-                    ("unpack_sizes", p_ext("IntList"))],
-            ensures=[(f"coder-{kind}-" + ("decodes-with-its-own-decoder" if ok else "is-rejected"), internal(ad_post(kind) if ok else (lambda c: z3.BoolVal(False))))],
-            raises=[Raises(BAD, sub=True, label="unsupported / encrypted method or decoder failure",
-                           when=(lambda c: z3.BoolVal(True)) if kind != "copy" else (lambda c: z3.BoolVal(False)))],
-            note="method id -> decoder: 00 Copy (identity), 030101 LZMA, 21 LZMA2; AES and unknown ids are rejected (BCJ not claimed)"))
+    KINDS = (("copy", b"\x00", True), ("lzma", b"\x03\x01\x01", True), ("lzma2", b"\x21", True),
+             ("aes", b"\x06\xf1\x07\x01", False), ("deflate", b"\x04\x01\x08", False))
+
+    def kind_of(c):
+        cid = c.ex.py_const(c.args["coder_id"])
+        return next((k for k, b_, _ok in KINDS if b_ == cid), None)
+
+    def ad_clause(kind, ok):
+        def f(c):
+            if kind_of(c) != kind:
+                return z3.BoolVal(True)               # another method id: this clause does not apply
+            return ad_post(kind)(c) if ok else z3.BoolVal(False)
+        return f
+
+    out.append(FnContract(
+        target=f"{RD}._apply_decoder",
+        params=[("self", p_obj("SevenZipReader", {})), ("coder_id", p_alts(*[p_const(b_) for _k, b_, _ok in KINDS])), ("properties", p_ext("CoderProps")),
+                ("data", p_ext("Blob")), ("unpack_sizes", p_ext("IntList"))],
+        ensures=[(f"coder-{k}-" + ("decodes-with-its-own-decoder" if ok else "is-rejected"), internal(ad_clause(k, ok))) for k, _b, ok in KINDS],
+        raises=[Raises(BAD, sub=True, label="unsupported / encrypted method or decoder failure", when=lambda c: z3.BoolVal(kind_of(c) != "copy"))],
+        note="method id -> decoder: 00 Copy (identity), 030101 LZMA, 21 LZMA2; AES and unknown ids are rejected (BCJ not claimed)"))
 
     # ---- _apply_decoder as seen by _decompress_folder: `decode` is uninterpreted (Appendix B); ASSUMED
     out.append(FnContract(
@@ -1815,8 +1826,19 @@ def m_seq_startswith(ex, st, obj, args, kwargs, node):
     return [(st, VBool(z3.Or(alts + [z3.BoolVal(False)])))]
 
 
+PCOUNT = z3.Function("entries_resolving_to_path", S, I)
+NORMPATH = z3.Function("os_path_normpath", S, S)
+
+
+def m_pathcounts_get(ex, st, obj, args, kwargs, node):
+    k = args[0]
+    return [(st, VInt(PCOUNT(k.t)))] if isinstance(k, VStr) else ex.havoc_call(st, "PathCounts.get", args, node)
+
+
 def install_members(reg):
     reg.method_models[("seq", "startswith")] = m_seq_startswith
+    reg.method_models[("PathCounts", "get")] = m_pathcounts_get
+    reg.ext_models["os.path.normpath"] = lambda ex, st, args, kwargs, node: [(st, VStr(NORMPATH(args[0].t)))]
     reg.method_models[("Stream7z", "seek")] = m_stream_seek
     reg.ext_models[("const", "os.SEEK_END")] = VInt(2)
     common.install_clock(reg)
@@ -2196,6 +2218,23 @@ def member_contracts(reg_models=None):
 
     # ---- 7z: selection + extraction into a private temp dir + sequential processing
 
+    def distinct_paths():
+        """writers' invariant (assumption 'members are distinct names'): no two non-directory entries resolve to one path"""
+        t = z3.Int("t!dp")
+        return z3.ForAll([t], z3.Implies(z3.And(t >= 0, t < N7, z3.Not(ISDIR(FINFO(t)))), PCOUNT(NORMPATH(FNAME(FINFO(t)))) == 1),
+                         patterns=[FINFO(t)])
+
+    def count7_inv(lc):
+        """a pass that counts the entries per normalised path into a dict: by the meaning of counting (PY semantics of
+        d[k] = d.get(k, 0) + 1 over the whole list) the dict is the occurrence count PCOUNT; introduced at the loop exit"""
+        if lc.extra.get("phase") == "exit":
+            loop = cur_loop(lc)
+            names = {n.value.id for n in ast.walk(loop) if isinstance(n, ast.Subscript) and isinstance(n.ctx, ast.Store) and isinstance(n.value, ast.Name)}
+            if len(names) != 1:
+                raise ops.Unsupported(f"7z path-count pass: expected one dict being filled, found {sorted(names)}")
+            lc.st.bind(names.pop(), VExt("PathCounts"))
+        return z3.BoolVal(True)
+
     def sel7_inv(lc):
         i = lc.i
         conj = []
@@ -2243,7 +2282,10 @@ def member_contracts(reg_models=None):
         raises=[Raises("ExtractionError", sub=True, label="too large / encrypted / extraction failed / invalid archive"),
                 Raises("Exception", sub=True, label="container / temp dir could not be opened",
                        when=lambda c: z3.BoolVal(c.exc is not None and "site" in c.exc.attrs))],
-        loops=role(is_seq("FileInfo"), "selects-the-visible-supported-members-in-list-order", sel7_inv),
+        hyps=lambda c: distinct_paths(),          # input assumption (distinct member paths), not a caller obligation
+        loops=merged(role(both(is_seq("FileInfo"), body_calls("append")), "selects-the-visible-supported-members-in-list-order", sel7_inv),
+                     role(both(is_seq("FileInfo"), lambda ex, st, it, node: not body_calls("append")(ex, st, it, node)),
+                          "counts-the-entries-per-normalised-path", count7_inv)),
         frame=lambda ex, st, ctx: st.ghost.__setitem__("routes", events(st, "routes") + (("7z", ctx.args["file_like"], ctx.args["archive_path"], None),)),
         result_maker=lambda ex, st, ctx: VExt("MemberGen"),
         note="members: non-directory, not skipped, <= max_memory_size; order = szf.list()"))
@@ -3366,7 +3408,9 @@ ASSUMPTIONS = [
     "SubStreamsInfo lists one size per stream-bearing file; the PackInfo section is present when folders exist",
     "the end-to-end statement (read_archive == direct extraction per member, in order) is the COMPOSITION of the layer contracts "
     "(a)-(f); the composition itself is argued in the pack's docstring, not discharged by the solver",
-    "a ZIP/TAR/7z member above max_memory_size / MAX_ARCHIVE_FILE_SIZE is skipped (C12's limits); members are distinct names",
+    "a ZIP/TAR/7z member above max_memory_size / MAX_ARCHIVE_FILE_SIZE is skipped (C12's limits); members are distinct names: no two "
+    "non-directory 7z entries resolve to one normalised path (the per-path counting pass of _extract_from_7z_optimized is introduced as the "
+    "occurrence count PCOUNT, which is 1 for every member under this assumption)",
     "_parse_files_info / _parse_header / _parse_main_header / _parse_streams_info are NOT under contract: their stand-in is the BOUNDED "
     "native-scope obligation (replay/C10.py on the real code at every run)",
     "NUMPOS / DCNT (positions after i NUMBERs, defined digests among the first i) are primitive-recursive spec functions used through "
